@@ -58,7 +58,7 @@ CLAIMED = {
    technique="Lean 4 proof (reservation invariant) + cycle-exact co-simulation + Lean stream monitors",
    design="§6 C12"),
  "C07": dict(
-   text="Cycle-accurate Lean models of LiteDRAMNativePortDownConverter and LiteDRAMNativePortUpConverter including the LiteX stream converters and FIFOs inside them, co-simulated against the real converters (up 1:2..1:32, down 2:1..8:1, both/write/read, reverse) with a controller side that behaves like the crossbar (commands queued, data strobes as unconditional pulses in command order, long stalls with several commands outstanding); the port-memory specification (Spec/PortMemory) is evaluated on the user side and the controller-side memory compared through the byte-addressed view; theorems for every schedule: down-converter command expansion (none lost/duplicated/reordered) and write-beat order, up-converter select mask and byte-enable masking, word/chunk view round-trips; the up-converter's misplacement of non-ascending addresses is proved on the model by two witnesses that are replayed on the real converter (known finding).",
+   text="Cycle-accurate Lean models of LiteDRAMNativePortDownConverter and LiteDRAMNativePortUpConverter including the LiteX stream converters and FIFOs inside them, co-simulated against the real converters (up 1:2..1:32, down 2:1..8:1, both/write/read, reverse) with a controller side that behaves like the crossbar (commands queued, data strobes as unconditional pulses in command order, long stalls with several commands outstanding); the port-memory specification (Spec/PortMemory) is evaluated on the user side and the controller-side memory compared through the byte-addressed view; theorems for every schedule: down-converter command expansion (none lost/duplicated/reordered), write-beat order and read-data regrouping, up-converter select mask and byte-enable masking, word/chunk view round-trips; the up-converter's misplacement of non-ascending addresses is proved on the model by two witnesses that are replayed on the real converter (known finding).",
    note="Trusted: Lean kernel; Spec/PortMemory.lean; controller-side stub written from crossbar.py; master obeys the port rules of the property. Equal-width path (plain connect) not modelled.",
    technique="Lean 4 proof (FSM/trace invariants by induction over schedules, refuting witnesses by kernel evaluation) + cycle-exact co-simulation + Lean port-memory specification evaluated on implementation runs",
    design="§6 C07"),
